@@ -90,6 +90,40 @@ Definition envelope (n : Z) (o : op) (l' : Z) (d a b : est) : option Z :=
   | ODivPow2Assign bits => if evalid d then Some (cdiv (rescale_u (eu d) (el d) l') (2 ^ bits) + 2 * n) else None
   end.
 
+(* composites: the same rules folded over the register lists *)
+Definition all_valid (l : list est) : bool := forallb evalid l.
+Definition env_sum (n l' : Z) (l : list est) : Z :=
+  fold_left (fun acc x => acc + rescale_u (eu x) (el x) l' + 2 * n) l 0.
+(* product of the list, left to right: (bound, magnitude) *)
+Definition env_prod (n l' : Z) (l : list est) : Z :=
+  match l with
+  | [] => 0
+  | x :: tl =>
+      fst (fold_left (fun (acc : Z * Z) y =>
+             let '(u, m) := acc in
+             (emag y * u + m * rescale_u (eu y) (el y) l' + 1 + n * (m + emag y + 2), m * emag y))
+           tl (rescale_u (eu x) (el x) l', emag x))
+  end.
+Definition env_dot_ct (n l' : Z) (xs ys : list est) : Z :=
+  fold_left (fun acc q =>
+               let '(x, y) := q in
+               acc + emag y * rescale_u (eu x) (el x) l' + emag x * rescale_u (eu y) (el y) l' + 1
+                   + n * (emag x + emag y + 2) + 2 * n) (combine xs ys) 0.
+Definition env_dot_pt (n l' : Z) (xs : list est) : Z :=
+  fold_left (fun acc x => acc + pmag * rescale_u (eu x) (el x) l' + n * (emag x + pmag + 2) + 2 * n) xs 0.
+Definition envelope_comp (n : Z) (c : comp) (l' : Z) (xs ys : list est) : option Z :=
+  match xs with
+  | [] => None
+  | _ =>
+    if negb (all_valid xs && all_valid ys) then None else
+    Some (match c with
+          | CAddMany => env_sum n l' xs
+          | CMulMany => env_prod n l' xs
+          | CDotCt => env_dot_ct n l' xs ys
+          | _ => env_dot_pt n l' xs
+          end)
+  end.
+
 Definition dec_slack (n l mag : Z) : Z := n * (2 + mag * 2 ^ (Z.max 0 (l - 50))).
 
 (* walk the program; `bad` collects the indices of steps whose measured error exceeds the envelope *)
@@ -107,6 +141,15 @@ Fixpoint walk (n B : Z) (st : list est) (p : list dstep) (outs : list (list Z)) 
                 | Some u => Est u l' mag
                 | None => if negb (status =? 0) && (0 <? mag) then eget st d else enone
                 end in
+      walk n B (eset st d e') tl rtl (ok && good)
+  | DComp c d xs ys :: tl, r :: rtl =>
+      let status := nthz r 0 in let l' := nthz r 1 in let err := nthz r 4 in let mag := nthz r 5 in
+      let env := if (status =? 0) && (0 <? mag) then envelope_comp n c l' (map (eget st) xs) (map (eget st) ys) else None in
+      let good := match env with
+                  | Some u => (err <? 0) || (err <=? u + dec_slack n l' mag)
+                  | None => true
+                  end in
+      let e' := match env with Some u => Est u l' mag | None => enone end in
       walk n B (eset st d e') tl rtl (ok && good)
   | DAlign d b :: tl, r :: rtl =>
       (* rescale of one of the two: both keep their value; errors grow by the truncation term *)
